@@ -85,7 +85,7 @@ def extra_c17(tier, seed, workdir, sh, GH, GM):
 PROPS["C14"] = dict(
     module="Grenad.Props.C14",
     extra=extra_c14,
-    streams={"varint": (24, 200)},
+    streams={"varint": (96, 960)},
     rules={},
     exhaustive_in="thorough",
     assumptions=["u32 arithmetic of varint.rs is modelled on Nat with explicit % and / (checked against the real functions)"],
@@ -93,37 +93,37 @@ PROPS["C14"] = dict(
 
 PROPS["C13"] = dict(
     module="Grenad.Props.C13",
-    streams={"open": (64, 800), "trunc": (16, 160)},
+    streams={"open": (256, 2560), "trunc": (64, 640)},
     rules={"ops": ["open"]},
     assumptions=["the source is an in-memory Cursor (seek before the start fails, reads are exact)"],
 )
 
 PROPS["C01"] = dict(
     module="Grenad.Props.C01",
-    streams={"write": (160, 1600)},
+    streams={"write": (640, 6400)},
     rules={"ops": ["ins", "finish", "file", "c", "interop"], "finish_must_succeed": True, "blocks": True},
 )
 
 PROPS["C03"] = dict(
     module="Grenad.Props.C03",
-    streams={"cursor": (240, 2400)},
+    streams={"cursor": (960, 9600), "exh": (2, 24)},
     rules={"ops": ["c", "file"], "fingerprint": True},
 )
 
-PROPS["C02"] = dict(module="Grenad.Props.C02", streams={"seek": (160, 1600)}, rules={"ops": ["c", "file"]})
-PROPS["C04"] = dict(module="Grenad.Props.C04", streams={"iter": (160, 1600)}, rules={"ops": ["range", "file"]})
-PROPS["C05"] = dict(module="Grenad.Props.C05", streams={"iter": (160, 1600)}, rules={"ops": ["prefix", "file"]})
-PROPS["C06"] = dict(module="Grenad.Props.C06", streams={"merge": (320, 3200)}, rules={"ops": ["merge", "mergew"], "calls": True})
-PROPS["C07"] = dict(module="Grenad.Props.C07", streams={"sorter": (240, 2400)}, rules={"ops": ["sfinish", "sins", "snew"], "calls": True})
-PROPS["C08"] = dict(module="Grenad.Props.C08", streams={"sorter": (240, 2400)}, rules={"ops": ["sins", "snew"], "sorter_bounds": True})
-PROPS["C09"] = dict(module="Grenad.Props.C09", streams={"write": (160, 1600)}, rules={"ops": ["finish", "interop", "file"], "blocks": True, "finish_must_succeed": True})
-PROPS["C10"] = dict(module="Grenad.Props.C10", streams={"v1": (120, 1200)}, rules={"ops": ["file", "c", "range", "prefix"]})
-PROPS["C11"] = dict(module="Grenad.Props.C11", streams={"wio": (160, 1600), "rio": (120, 1200), "sorterio": (120, 1200)},
+PROPS["C02"] = dict(module="Grenad.Props.C02", streams={"seek": (640, 6400)}, rules={"ops": ["c", "file"]})
+PROPS["C04"] = dict(module="Grenad.Props.C04", streams={"iter": (640, 6400)}, rules={"ops": ["range", "file"]})
+PROPS["C05"] = dict(module="Grenad.Props.C05", streams={"iter": (640, 6400)}, rules={"ops": ["prefix", "file"]})
+PROPS["C06"] = dict(module="Grenad.Props.C06", streams={"merge": (1280, 12800)}, rules={"ops": ["merge", "mergew"], "calls": True})
+PROPS["C07"] = dict(module="Grenad.Props.C07", streams={"sorter": (960, 9600)}, rules={"ops": ["sfinish", "sins", "snew"], "calls": True})
+PROPS["C08"] = dict(module="Grenad.Props.C08", streams={"sorter": (960, 9600)}, rules={"ops": ["sins", "snew"], "sorter_bounds": True})
+PROPS["C09"] = dict(module="Grenad.Props.C09", streams={"write": (640, 6400)}, rules={"ops": ["finish", "interop", "file"], "blocks": True, "finish_must_succeed": True})
+PROPS["C10"] = dict(module="Grenad.Props.C10", streams={"v1": (480, 4800)}, rules={"ops": ["file", "c", "range", "prefix"]})
+PROPS["C11"] = dict(module="Grenad.Props.C11", streams={"wio": (640, 6400), "rio": (480, 4800), "sorterio": (480, 4800)},
                     rules={"ops": ["ins", "finish", "sinkstate", "c", "range", "prefix", "file", "sfinish", "sins", "snew"]})
-PROPS["C12"] = dict(module="Grenad.Props.C12", streams={"fault": (16, 160)},
+PROPS["C12"] = dict(module="Grenad.Props.C12", streams={"fault": (64, 640)},
                     rules={"ops": ["ins", "finish", "sinkstate", "c", "merge", "mergew", "sins", "!sins", "sfinish", "!sfinish", "snew"]})
-PROPS["C15"] = dict(module="Grenad.Props.C15", streams={"write": (160, 1600), "unsorted": (80, 800)}, rules={"ops": ["finish", "ins"], "blocks": True})
-PROPS["C16"] = dict(module="Grenad.Props.C16", streams={"cursor": (160, 1600), "seek": (80, 800), "open": (32, 320)},
+PROPS["C15"] = dict(module="Grenad.Props.C15", streams={"write": (640, 6400), "unsorted": (320, 3200)}, rules={"ops": ["finish", "ins"], "blocks": True})
+PROPS["C16"] = dict(module="Grenad.Props.C16", streams={"cursor": (640, 6400), "seek": (320, 3200), "open": (128, 1280)},
                     rules={"ops": ["c", "open", "file"], "loads": True, "fingerprint": False})
-PROPS["C17"] = dict(extra=extra_c17, module="Grenad.Props.C17", streams={"sorter": (240, 2400)}, rules={"ops": ["sins", "snew", "sfinish"], "alloc": True})
-PROPS["C18"] = dict(module="Grenad.Props.C18", streams={"unsorted": (240, 2400)}, rules={"ops": ["ins", "finish"], "blocks": True})
+PROPS["C17"] = dict(extra=extra_c17, module="Grenad.Props.C17", streams={"sorter": (960, 9600)}, rules={"ops": ["sins", "snew", "sfinish"], "alloc": True})
+PROPS["C18"] = dict(module="Grenad.Props.C18", streams={"unsorted": (960, 9600)}, rules={"ops": ["ins", "finish"], "blocks": True})
